@@ -1,6 +1,7 @@
 """C15: every sample lands in exactly one grid bin; grid files round-trip."""
 import itertools
 import math
+import os
 from hypothesis import strategies as st
 from lib import cvz, rcrun
 from lib.gen import fl, rnd, fmt
@@ -183,3 +184,82 @@ PARTS = {
     "binning": {"strategy": spec_bin, "check": check_bin, "examples": {"quick": 4800, "thorough": 40000}, "sample": view},
     "files": {"runner": runner_files, "replay": rcrun.replay_rc},
 }
+
+
+# --------------------------------------------------------------------------------------------
+# thermodynamic-integration samples of a restraint (writeTISamples): each (value, system force) pair goes to the bin of the value at
+# which the force was measured, under both force-timing conventions
+
+@st.composite
+def spec_ti(draw, tier):
+    nv = draw(st.sampled_from([1, 1, 2]))
+    nb = [draw(st.integers(3, 7)) for _ in range(nv)]
+    T = draw(st.integers(3, 25))
+    return {"nv": nv, "nb": nb, "tf": draw(st.sampled_from([1, 2, 2])), "k": rnd(draw(fl(0.2, 5.0)), 2),
+            "b": [[draw(st.integers(-1, nb[i])) for i in range(nv)] for _ in range(T + 1)],
+            "off": [[rnd(draw(fl(0.05, 0.45)), 3) for _ in range(nv)] for _ in range(T + 1)],
+            "f": [[rnd(draw(fl(-6, 6)), 2) for _ in range(nv)] for _ in range(T + 1)], "sub": draw(st.booleans())}
+
+
+def check_ti(spec, ctx):
+    nv, nb = spec["nv"], spec["nb"]
+    d = os.path.join(ctx["workdir"], "c15ti_%d" % os.getpid())
+    os.makedirs(d, exist_ok=True)
+    for f in os.listdir(d):
+        os.unlink(os.path.join(d, f))
+    extra = {"subtractAppliedForce": "on"} if spec["sub"] else None
+    cfg = "\n".join(cvz.zvar("z%d" % i, i + 1, 0.0, 0.5 * nb[i], 0.5, extra=extra) for i in range(nv))
+    cfg += "\nharmonic {\n  name h\n  colvars %s\n  centers %s\n  forceConstant %s\n  writeTISamples on\n}\n" % (
+        " ".join("z%d" % i for i in range(nv)), " ".join(fmt(0.25 * nb[i]) for i in range(nv)), fmt(spec["k"]))
+    nat = nv + 1
+    L = cvz.header(nat, spec["tf"]) + ["outprefix ti", "config <<END\n%s\nEND" % cfg]
+    xs = [[0.5 * b + o for b, o in zip(bb, oo)] for bb, oo in zip(spec["b"], spec["off"])]
+    for x, f in zip(xs, spec["f"]):
+        L += [cvz.pos_line_z(x, nat), cvz.fsys_line_z(f, nat), "step"]
+    L.append("post_run")
+    case = "\n".join(L) + "\n"
+    r = run_case(case, cwd=d)
+    if r.crashed:
+        return Outcome(False, msg="crash %s" % r.stderr[-400:], sig="crash", case_text=case)
+    if r.of("config")[0]["rc"] != 0:
+        return Outcome(False, msg="configuration rejected: %s" % r.of("config")[0]["errs"], sig="gen_invalid", case_text=case)
+    if any(s["errbits"] for s in r.of("step")):
+        return Outcome(False, msg="step error %s" % [s["errs"] for s in r.of("step") if s["errbits"]][:1], sig="step_error", case_text=case)
+    T = len(xs) - 1
+    # same step: the force of step t belongs to the value of step t (t >= 1); late: what arrives at step t was measured at t-1
+    pairs = [(spec["b"][t], spec["f"][t]) for t in (range(1, T + 1) if spec["tf"] == 1 else range(0, T))]
+    count, tot = {}, {}
+    for b, f in pairs:
+        if all(0 <= b[i] < nb[i] for i in range(nv)):
+            count[tuple(b)] = count.get(tuple(b), 0) + 1
+            acc = tot.setdefault(tuple(b), [0.0] * nv)
+            for i in range(nv):
+                acc[i] += f[i]
+
+    def rows(path):
+        try:
+            return [[float(v) for v in l.split()] for l in open(path) if l.strip() and not l.startswith("#")]
+        except (OSError, ValueError):
+            return None
+    rc_, rf = rows(os.path.join(d, "ti.h.ti.count")), rows(os.path.join(d, "ti.h.ti.force"))
+    if rc_ is None or rf is None:
+        return Outcome(False, msg="TI sample files not written", sig="ti_files", case_text=case)
+    moved = sum(1 for t in range(1, T + 1) if spec["b"][t] != spec["b"][t - 1])
+    for row_c, row_f in zip(rc_, rf):
+        b = tuple(int(math.floor(row_c[i] / 0.5)) for i in range(nv))
+        n = int(row_c[nv])
+        if n != count.get(b, 0):
+            return Outcome(False, msg="bin %s: %d thermodynamic-integration samples stored; the (value, force) pairs of the run put %d there "
+                           "[%s convention, %d variables, %d bin changes]" % (b, n, count.get(b, 0), "same-step" if spec["tf"] == 1 else "late", nv, moved),
+                           sig="ti_count", case_text=case)
+        for i in range(nv):
+            exp = tot[b][i] / n if n else 0.0
+            if abs(row_f[nv + i] - exp) > 1e-9 * max(1.0, abs(exp)):
+                return Outcome(False, msg="bin %s variable %d: mean system force stored %r, mean of the forces measured at values in that bin %r [%s convention]" % (
+                    b, i, row_f[nv + i], exp, "same-step" if spec["tf"] == 1 else "late"), sig="ti_force", case_text=case)
+    return Outcome(True, nontrivial=len(count) >= 2 and moved >= 2, cls=("ti", "nv%d" % nv, "tf%d" % spec["tf"], "sub" if spec["sub"] else ""),
+                   strata=["ti", "ti_tf%d" % spec["tf"]] + (["ti_late_moving"] if spec["tf"] == 2 and moved >= 2 else []), case_text=case)
+
+
+PARTS["ti_samples"] = {"strategy": spec_ti, "check": check_ti, "examples": {"quick": 2000, "thorough": 20000}, "sample": lambda s: {k: v for k, v in s.items() if k not in ("off",)}}
+REQUIRED_STRATA = {"all": (REQUIRED_STRATA["all"] if "REQUIRED_STRATA" in globals() else []) + ["ti_samples:ti_late_moving", "ti_samples:ti_tf1"]}
